@@ -15,6 +15,7 @@ RULE = (
     "alternatives in either order (`T | int`, `T | int | None`, `Union[int, T]`, `Union[None, float, T]`), Optional[tuple[...]] (its elements stay as optional as they are written) and unsupported base types for the decoration-time TypeError; presented as CTX, as function "
     "calls (also with the values as defaults the caller leaves out) and as NamedTuple / dataclass constructions. non-trivial = distinct line with at least one optional position"
 )
+RULE += " Also: None in place of a whole tuple whose hint has no `| None`."
 
 SHAPES = [("a b", (2, 3), (2, 4)), ("a", (2,), (5,)), ("b 1", (3, 1), (3, 2))]
 
